@@ -205,6 +205,17 @@ func (c *Ctx) finish(level, explanation string, writeEvidence bool) int {
 	for _, r := range rids {
 		fmt.Printf("   %-10s %4d instances  %s\n", r, c.ruleCounts[r], firstLine(c.ruleText[r]))
 	}
+	if verbose != nil && *verbose {
+		for _, o := range c.Obls {
+			st := "ok  "
+			if !o.OK {
+				st = "FAIL"
+			} else if o.Trivial {
+				st = "triv"
+			}
+			fmt.Printf("     %s [%s] %s @%s  %s\n", st, o.Config, o.Key(), o.Pos, o.Detail)
+		}
+	}
 	printedKnown := map[string]bool{}
 	for _, o := range knownHit {
 		if printedKnown[o.Key()] {
